@@ -691,3 +691,8 @@ def do_replay(ctx, b, runner):
 
 if __name__ == "__main__":
     print(__doc__)
+
+
+def run(ctx, _inner=run):     # + T5-race (lib/racetie.py): data-race freedom, the assumption under every interleaving model; also re-runs its replay files
+    from lib import racetie
+    return racetie.stage(ctx, _inner, ["net/rest", "net/grpc", "net"])
